@@ -96,6 +96,18 @@ def correspond(ctx):
             "samples": [meta[0], meta[len(meta) // 2], meta[-1]], "hist": hist}
 
 
+def nandiff(a, b):
+    """max |a - b| where both are finite; NaN/inf in the same places count as equal (0/0 for an all-zero frame is the same
+    answer on both sides), in different places as a difference"""
+    a = numpy.asarray(a, dtype=float); b = numpy.asarray(b, dtype=float)
+    if a.shape != b.shape:
+        return float("inf")
+    fa, fb = numpy.isfinite(a), numpy.isfinite(b)
+    if not numpy.array_equal(fa, fb) or not numpy.array_equal(numpy.isnan(a), numpy.isnan(b)):
+        return float("inf")
+    return float(numpy.abs(a[fa] - b[fb]).max()) if fa.any() else 0.0
+
+
 def property_checks(inp):
     npr = numpy.random.default_rng(inp["data_seed"])
     out = []
@@ -129,13 +141,13 @@ def property_checks(inp):
         nf = inp["nf"]
         st = numpy.abs(npr.normal(size=(nf, ny, nx))) + 0.1
         cs = cen.centre_of_gravity(st.copy())
-        A(("cog: stack = frames alone (no threshold)", float(numpy.abs(cs - numpy.array([cen.centre_of_gravity(f.copy()) for f in st]).T).max()), 1e-12))
+        A(("cog: stack = frames alone (no threshold)", nandiff(cs, numpy.array([cen.centre_of_gravity(f.copy()) for f in st]).T), 1e-12))
         cs = cen.centre_of_gravity(st.copy(), threshold=inp["thr"])
-        A(("cog: stack = frames alone (threshold)", float(numpy.abs(cs - numpy.array([cen.centre_of_gravity(f.copy(), threshold=inp["thr"]) for f in st]).T).max()), 1e-9))
+        A(("cog: stack = frames alone (threshold)", nandiff(cs, numpy.array([cen.centre_of_gravity(f.copy(), threshold=inp["thr"]) for f in st]).T), 1e-9))
         cs1 = numpy.array([cen.centre_of_gravity(st[i:i + 1].copy(), threshold=inp["thr"])[:, 0] for i in range(nf)]).T
-        A(("cog: stack = depth-1 stacks (threshold)", float(numpy.abs(cs - cs1).max()), 1e-12))
+        A(("cog: stack = depth-1 stacks (threshold)", nandiff(cs, cs1), 1e-12))
         cb = cen.brightest_pixel(st.copy(), inp["frac"])
-        A(("brightest pixel: stack = frames alone", float(numpy.abs(cb - numpy.array([cen.brightest_pixel(f.copy(), inp["frac"]) for f in st]).T).max()), 1e-12))
+        A(("brightest pixel: stack = frames alone", nandiff(cb, numpy.array([cen.brightest_pixel(f.copy(), inp["frac"]) for f in st]).T), 1e-12))
         # quad cell mirror
         q = numpy.abs(npr.normal(size=(2, 2)))
         A(("quad cell changes sign under mirroring", float(numpy.abs(cen.quadCell(q[:, ::-1].copy())[0] + cen.quadCell(q.copy())[0]) + numpy.abs(cen.quadCell(q[::-1].copy())[1] + cen.quadCell(q.copy())[1])), 1e-12))
@@ -158,7 +170,7 @@ def property_checks(inp):
         st2 = numpy.array([img + lv[0], ref + lv[1], 2 * img + lv[2]])
         cst = cen.correlation_centroid(st2.copy(), ref.copy(), threshold=0.3, padding=pad)
         alone = numpy.array([cen.correlation_centroid(f.copy(), ref.copy(), threshold=0.3, padding=pad)[:, 0] for f in st2]).T
-        A(("correlation centroid: stack = frames alone (frames on different background levels)", float(numpy.abs(cst - alone).max()), 1e-9))
+        A(("correlation centroid: stack = frames alone (frames on different background levels)", nandiff(cst, alone), 1e-9))
         # rectangular frames, padding
         ry, rx = inp["rect"]
         yy, xx = numpy.indices((ry, rx))
